@@ -42,6 +42,8 @@ def shank_map(kind, n, rng, nshank):
         used = [0, 2 + int(rng.integers(0, 2))]
         sh = np.array([used[i] for i in rng.integers(0, 2, n)])
         sh[:2] = used
+    elif kind == "only":           # a four-shank probe recorded from one shank only, and not the first one
+        sh = np.full(n, 1 + int(rng.integers(0, 3)))
     else:
         raise ValueError(kind)
     cnt = {}
@@ -54,13 +56,25 @@ def shank_map(kind, n, rng, nshank):
     return sites
 
 
-def make_recording(root, ns, rng, kind="NP2.4", n=384, sites=None, gainset=(0.5, 8192), content="random", label="probe00"):
-    """root/raw_ephys_data/<label>/_spikeglx_ephysData_g0_t0.imec0.ap.{bin,meta}; sync column = sample counter"""
+PTYPES = {"NP2.4": (24, 2013), "NP2.1": (21, 1030)}   # imDatPrb_type values the reader maps to each NP2 kind
+
+
+def make_recording(root, ns, rng, kind="NP2.4", n=384, sites=None, gainset=(0.5, 8192), content="random", label="probe00",
+                   encoding=None, ptype=None):
+    """root/raw_ephys_data/<label>/_spikeglx_ephysData_g0_t0.imec0.ap.{bin,meta}; sync column = sample counter.
+    encoding: site table written as snsShankMap ("shank", default) or snsGeomMap ("geom"); ptype: the other imDatPrb_type
+    value of the same probe kind (2013 for NP2.4, 1030 for NP2.1). Neither changes the random draws: the data are identical."""
     root = Path(root)
     folder = root / "raw_ephys_data" / label
     if sites is None:
         sites = metagen.dense_sites(kind, n=n, nshank=4 if kind == "NP2.4" else 1)
-    txt, info = metagen.make_meta(kind, sites, ns=ns, range_max=gainset[0], maxint=gainset[1])
+    txt, info = metagen.make_meta(kind, sites, ns=ns, range_max=gainset[0], maxint=gainset[1], **({"encoding": encoding} if encoding else {}))
+    if ptype is not None and kind in PTYPES and int(ptype) != PTYPES[kind][0]:
+        if int(ptype) not in PTYPES[kind]:
+            raise ValueError(f"imDatPrb_type {ptype} is not a {kind} probe")
+        old = PTYPES[kind][0]
+        txt = txt.replace(f"imDatPrb_type={old}\n", f"imDatPrb_type={int(ptype)}\n").replace(f"imroTbl=({old},384)", f"imroTbl=({int(ptype)},384)")
+        info["ptype"] = int(ptype)
     nc = len(sites) + 1
     if kind.startswith("NP2"):
         # a complete (not channel-subsetted) recording of a probe with len(sites) channels: acquired = saved
@@ -93,9 +107,10 @@ class Recorder:
     """wraps NP2Converter._ind2save on one instance: one event per call (the tokens are read off the sync column of
     what the method returned, i.e. from the data that is about to be written)"""
 
-    def __init__(self, conv):
+    def __init__(self, conv, offset=0):
         self.events = []
         self.conv = conv
+        self.offset = int(offset)   # the converted range starts at this sample of the file (NP2.1 path): tokens are relative to it
         self.bound = hasattr(conv, "_ind2save")
         if not self.bound:
             # the private per-window method is not there (renamed / inlined): no per-window observation, the run is judged on the
@@ -107,7 +122,8 @@ class Recorder:
         def wrapped(chunk, chunk_sync, wg, ratio=1, etype="ap"):
             out = orig(chunk, chunk_sync, wg, ratio=ratio, etype=etype)
             tok = out[:, -1].astype(np.int64)
-            first = int(round(float(chunk_sync[0, 0]))) if chunk_sync.shape[1] else -1
+            first = int(round(float(chunk_sync[0, 0]))) - self.offset if chunk_sync.shape[1] else -1
+            tok = tok - self.offset
             if first >= 0 and int(wg.ns) > WRAP:
                 # the counter in the sync column wraps at WRAP: the multiple of WRAP is resolved with the position the generator
                 # claims (windows are shorter than WRAP), everything else still comes from the data
@@ -136,13 +152,14 @@ def compress_tokens(tok, stride):
 def convert(ap_file, w, **kw):
     """one real NP2Converter run (no compression, no post-check unless asked); returns (status, events, conv, exc)"""
     import neuropixel
-    conv = neuropixel.NP2Converter(ap_file, post_check=kw.get("post_check", False), compress=kw.get("compress", False),
-                                   delete_original=kw.get("delete_original", False))
-    conv.init_params(nwindow=w)
-    rec = Recorder(conv)
-    exc = ""
-    status = None
+    exc, status, conv, events = "", None, None, []
     try:
+        # (constructor and init_params are code under test too: when they raise, the run is abnormal, not the harness broken)
+        conv = neuropixel.NP2Converter(ap_file, post_check=kw.get("post_check", False), compress=kw.get("compress", False),
+                                       delete_original=kw.get("delete_original", False))
+        conv.init_params(nwindow=w)
+        rec = Recorder(conv)
+        events = rec.events
         status = conv.process(overwrite=kw.get("overwrite", False))
     except Exception as e:  # noqa
         exc = f"{type(e).__name__}: {e}"
@@ -151,17 +168,17 @@ def convert(ap_file, w, **kw):
             conv.sr.close()
         except Exception:
             pass
-    return status, rec.events, conv, exc
+    return status, events, conv, exc
 
 
 def convert_reuse(ap_file, w1, w2, **kw):
     """the same converter object used twice: process() with window w1, then init_params(nwindow=w2) and
     process(overwrite=True). Returns what `convert` returns, for the SECOND run."""
     import neuropixel
-    conv = neuropixel.NP2Converter(ap_file, post_check=kw.get("post_check", False), compress=False, delete_original=False)
-    conv.init_params(nwindow=w1)
-    exc, status, events = "", None, []
+    exc, status, events, conv = "", None, [], None
     try:
+        conv = neuropixel.NP2Converter(ap_file, post_check=kw.get("post_check", False), compress=False, delete_original=False)
+        conv.init_params(nwindow=w1)
         st1 = conv.process()
         if st1 != 1:
             return st1, [], conv, f"first run returned {st1}"
@@ -177,6 +194,55 @@ def convert_reuse(ap_file, w1, w2, **kw):
         except Exception:
             pass
     return status, events, conv, exc
+
+
+def convert_opts(ap_file, init=None, *, compress=False, post_check=False, overwrite=False, decline_first=False, np21=None):
+    """one real NP2Converter run with arbitrary `init_params` keywords (`init` None: init_params is not called, the defaults the
+    constructor set stand). decline_first: process() is first called without overwrite on the same object (output exists: it
+    declines), then process(overwrite=True) is the observed run. np21: keyword arguments (offset / assert_shanks) for a direct
+    call of the NP2.1 path, which process() does not forward; that method is private: when it is not there the run is skipped
+    (status 'skipped') and the name is recorded in UNBOUND. Returns (status, events, conv, exc, first_status)."""
+    import neuropixel
+    exc, status, events, first_status, conv = "", None, [], None, None
+    try:
+        conv = neuropixel.NP2Converter(ap_file, post_check=post_check, compress=compress, delete_original=False)
+        if init is not None:
+            conv.init_params(**init)
+        if decline_first:
+            first_status = conv.process()
+            overwrite = True
+        rec = Recorder(conv, offset=(np21 or {}).get("offset", 0))
+        events = rec.events
+        if np21 is not None:
+            fn = getattr(conv, "_process_NP21", None)
+            if fn is None:
+                UNBOUND.add("NP2Converter._process_NP21")
+                status = "skipped"
+            else:
+                status = fn(overwrite=overwrite, **np21)
+        else:
+            status = conv.process(overwrite=overwrite)
+    except Exception as e:  # noqa
+        exc = f"{type(e).__name__}: {e}"
+    finally:
+        try:
+            conv.sr.close()
+        except Exception:
+            pass
+    return status, events, conv, exc, first_status
+
+
+def read_int16(path):
+    """flat int16 content of a .bin file or of an mtscomp .cbin file (read with the library, not with the code under test)"""
+    path = Path(path)
+    if path.suffix == ".cbin":
+        import mtscomp
+        r = mtscomp.decompress(path, path.with_suffix(".ch"))
+        try:
+            return np.array(r[:], dtype=np.int16).reshape(-1)
+        finally:
+            r.close()
+    return np.fromfile(path, dtype=np.int16)
 
 
 def window_events(events, nsamp_of_first):
